@@ -284,6 +284,9 @@ PROP_MENU = [
     ("ATTENDEE;DELEGATED-TO=a@example.com,b@example.com;DELEGATED-FROM=c@example.com", "mailto:d@example.com"),
     ("ATTENDEE;MEMBER=team-a,\"mailto:b@example.com\";SENT-BY=\"mailto:s@example.com\"", "mailto:e@example.com"),
     ("DESCRIPTION;ALTREP=\"http://x/y\";LANGUAGE=en", "with altrep"), ("ATTACH;FMTTYPE=text/plain;ENCODING=BASE64;VALUE=BINARY", "QUJD"),
+    # payloads that are not text in any encoding: a PNG header, a byte-order mark, a lone continuation byte, zero bytes
+    ("ATTACH;FMTTYPE=image/png;ENCODING=BASE64;VALUE=BINARY", "iVBORw0KGgo="), ("ATTACH;ENCODING=BASE64;VALUE=BINARY", "77u/QQ=="),
+    ("ATTACH;ENCODING=BASE64;VALUE=BINARY", "gA=="), ("ATTACH;ENCODING=BASE64;VALUE=BINARY", "AAAA"),
     ("CATEGORIES", "work,errand,family,work,home"),
     ("PRIORITY", "0"), ("SEQUENCE", "2147483647"), ("GEO", "0;0"), ("TZOFFSETFROM", "-0000"), ("TZOFFSETTO", "+235959"),
 ]
